@@ -1,11 +1,17 @@
 import Driver.Sexp
 import Driver.C15
+import Driver.Parse
+import Driver.TextCmd
 namespace Driver
 
 def handle (line : String) : String :=
   match Sexp.parseLine line with
   | some (.atom "c15" :: args) => runC15 false args
   | some (.atom "c15pinned" :: args) => runC15 true args
+  | some (.atom "parse" :: args) => runParse args
+  | some (.atom "c11" :: args) => runC11 args
+  | some (.atom "c09" :: args) => runC09 args
+  | some (.atom "term" :: args) => runTerm args
   | some [] => ""
   | _ => "bad-input"
 
